@@ -77,7 +77,12 @@ def hist_schemas():
     through (JSON-like), with defaults that are EQUAL as Python values but different GraphQL literals (true / 1 / 1.0, false / 0)."""
     from py_gql import build_schema
     from py_gql.schema import Argument, Field, Int, ObjectType, ScalarType, Schema
-    schemas = [build_schema(s) for s in HIST_SDL]
+    schemas = []
+    for s in HIST_SDL:
+        try:
+            schemas.append(build_schema(s))
+        except Exception as e:          # reported by run() as a divergence (a valid type-system document is rejected)
+            schemas.append(e)
     Any = ScalarType("Any", serialize=lambda v: v, parse=lambda v: v)
     q = ObjectType("Query", [
         Field("f", Int, [Argument("yes", Any, default_value=True), Argument("one", Any, default_value=1), Argument("onef", Any, default_value=1.0)]),
@@ -173,6 +178,9 @@ def _hist_child(args):
     texts = []
     for i, o in calls:
         try:
+            if isinstance(schemas[i - 1], Exception):
+                texts.append("UNBUILT")
+                continue
             texts.append(schemas[i - 1].to_string(**OPTS[o - 1]))
         except Exception as e:
             texts.append("RAISES " + repr(e))
@@ -236,6 +244,8 @@ def run(chk):
     for callseq, ts in results:
         chk.traces += 1
         for pos, (c, t) in enumerate(zip(callseq, ts)):
+            if t == "UNBUILT":
+                continue
             if t.startswith("RAISES"):
                 chk.diverge("sdl/history/print-raises/opts=%d" % c[1], {"sequence": callseq, "position": pos, "error": t}, "printing raises after earlier calls")
                 continue
@@ -248,10 +258,15 @@ def run(chk):
     from py_gql import build_schema
     out = {}
     for i, sdl in enumerate(HIST_SDL):
+        try:
+            built = build_schema(sdl)
+        except Exception as e:
+            out.setdefault("sdl/history-schema-does-not-build/%s/%d" % (type(e).__name__, i + 1), ["a valid type-system document of the history scenario is rejected", {"sdl": sdl, "error": repr(e)[:300]}])
+            continue
         for o in OPTS:
-            roundtrip(build_schema(sdl), o, "history-schema-%d" % (i + 1), out, {"source": "history"})
+            roundtrip(built, o, "history-schema-%d" % (i + 1), out, {"source": "history"})
     # the code-built schemas: their texts at least parse and print every default as the literal of ITS value
-    for sch in hist_schemas()[len(HIST_SDL):]:
+    for sch in [x for x in hist_schemas()[len(HIST_SDL):] if not isinstance(x, Exception)]:
         text = sch.to_string()
         for f in sch.query_type.fields:
             for a in f.arguments:
